@@ -343,3 +343,164 @@ def c21_stridezero(R):
                 construct=f"{name}: division by {dt}",
             )
     R.need(n >= 12, f"only {n} divisions by a stride found")
+
+
+@rule(
+    "C21.sdivround",
+    props=("C21", "C24"),
+    floor=2,
+    family="TAB",
+    desc="signed division rounds towards zero (bvsdiv): an upper bound of the quotient is not computed with Python's "
+    "floor division `//` from operands of different signs, which rounds the other way and cuts off the largest quotient",
+)
+def c21_sdivround(R):
+    tree = R.tree
+    m = tree.mod(SI)
+    fn = tree.func_inlined(SI, "StridedInterval._wrapped_signed_div", exclude=("_unsigned_to_signed", "_is_msb_zero"))
+    for _ in range(4):
+        new = util.inline_aliases(fn, _arith)
+        if new is fn:
+            break
+        fn = new
+    n = 0
+    for st in walk_no_nested(fn):
+        if not (isinstance(st, ast.Assign) and len(st.targets) == 1 and isinstance(st.targets[0], ast.Name) and isinstance(st.value, ast.BinOp) and isinstance(st.value.op, ast.FloorDiv)):
+            continue
+        signed = [("_unsigned_to_signed" in ast.unparse(o)) for o in (st.value.left, st.value.right)]
+        if signed[0] == signed[1]:
+            continue  # both non-negative or both negative: the quotient is non-negative and floor == truncation
+        # which bound does it become?
+        tgt = st.targets[0].id
+        is_upper = any(isinstance(c, ast.Call) and any(k.arg == "upper_bound" and isinstance(k.value, ast.Name) and k.value.id == tgt for k in c.keywords) for c in ast.walk(fn))
+        if not is_upper:
+            continue  # rounding a lower bound down is conservative
+        n += 1
+        arm = "+ / -" if signed[1] else "- / +"
+        R.bad(
+            m,
+            st,
+            f"_wrapped_signed_div computes the upper bound of a {arm} quotient as `{norm(st.value)[:110]}`: // rounds towards minus "
+            f"infinity, signed division towards zero, so the largest quotient is cut off whenever the division is not exact "
+            f"(-7 / 3 is -2, -7 // 3 is -3)",
+            construct=f"_wrapped_signed_div: upper bound of the {arm} quotient by floor division",
+        )
+    if n == 0:
+        R.ok(m, fn, "_wrapped_signed_div: no upper bound by floor division of operands of different signs")
+    R.ok(m, fn, "_wrapped_signed_div analysed")
+
+
+@rule(
+    "C21.shiftshape",
+    props=("C21", "C24"),
+    floor=4,
+    family="GRD",
+    desc="three shape clauses of the shift transfer functions: the range of a shift amount is read off its two bounds "
+    "only where the amount does not wrap; bounds shifted left as unbounded integers are handed to an interval only under "
+    "a fact that their span is below 2**w (else the reduced pair is the wrong arc); the sign fill of an arithmetic right "
+    "shift is applied to a bound under the sign test of that same bound",
+)
+def c21_shiftshape(R):
+    tree = R.tree
+    m = tree.mod(SI)
+    # (1) _get_shift_range
+    fn = util.resolve_locals(tree.func_inlined(SI, "StridedInterval._get_shift_range"))
+    ps = [a.arg for a in fn.args.args]
+    R.need(len(ps) == 2, "_get_shift_range no longer takes (self, amount)")
+    amt = ps[1]
+    n1 = 0
+    for r in walk_no_nested(fn):
+        if not (isinstance(r, ast.Return) and isinstance(r.value, ast.Tuple) and len(r.value.elts) == 2):
+            continue
+        lo, hi = (ast.unparse(e) for e in r.value.elts)
+        if f"{amt}.lower_bound" in lo and f"{amt}.upper_bound" in hi:
+            n1 += 1
+            facts = _facts(r)
+            ok = any(
+                f in (f"{amt}.lower_bound <= {amt}.upper_bound", f"{amt}.upper_bound >= {amt}.lower_bound", f"{amt}.is_integer")
+                for f in facts
+            )
+            R.check(
+                ok,
+                m,
+                r,
+                "shift range from the two bounds only for an amount that does not wrap",
+                f"_get_shift_range returns the amount's two bounds `{norm(r.value)[:90]}` with no dominating fact that the amount "
+                f"does not wrap (facts: {facts[-3:]}): a wrapping amount contains 0 and the largest value, and the shift loops "
+                f"would run over an empty or too short range ([0, 1] >> [5, 3] was {{0}})",
+                construct="_get_shift_range: range read off both bounds of the amount",
+            )
+    R.need(n1 >= 1, "_get_shift_range: no return built from both bounds of the amount")
+    # (2) lshift
+    fn = tree.func_inlined(SI, "StridedInterval.lshift")
+    n2 = 0
+    shifted = set()
+    for st in walk_no_nested(fn):
+        if isinstance(st, ast.Assign) and len(st.targets) == 1 and isinstance(st.targets[0], ast.Name) and any(isinstance(x, ast.BinOp) and isinstance(x.op, ast.LShift) for x in ast.walk(st.value)):
+            shifted.add(st.targets[0].id)
+    # names that take their value from a shifted one (new_lower_bound = lower_shifted)
+    for _ in range(3):
+        for st in walk_no_nested(fn):
+            if isinstance(st, ast.Assign) and len(st.targets) == 1 and isinstance(st.targets[0], ast.Name) and isinstance(st.value, ast.Name) and st.value.id in shifted:
+                shifted.add(st.targets[0].id)
+    for c in (x for x in walk_no_nested(fn) if isinstance(x, ast.Call) and (dotted(x.func) or "").split(".")[-1] == "StridedInterval"):
+        kws = {k.arg: k.value for k in c.keywords if k.arg}
+        lo, hi = kws.get("lower_bound"), kws.get("upper_bound")
+        if lo is None or hi is None:
+            continue
+
+        def from_shift(e):
+            return any((isinstance(x, ast.Name) and x.id in shifted) or (isinstance(x, ast.BinOp) and isinstance(x.op, ast.LShift)) for x in ast.walk(e))
+
+        if not (from_shift(lo) and from_shift(hi)):
+            continue
+        n2 += 1
+        facts = _facts(c)
+        lt, ht = ast.unparse(lo), ast.unparse(hi)
+        ok = any(re.fullmatch(rf"{re.escape(ht)} - {re.escape(lt)} <=? .*(2 \*\* \w+\.bits|1 << \w+\.bits|max_int\(\w+\.bits\)).*", f) for f in facts)
+        R.check(
+            ok,
+            m,
+            c,
+            "left-shifted bounds become an interval only where their span is below 2**w",
+            f"lshift builds an interval from the shifted bounds `{lt}` and `{ht}` with no dominating fact that their span is "
+            f"below 2**w (facts: {facts[-2:]}): once the shifted values go round the circle the pair reduced modulo 2**w is an "
+            f"arc that misses most of them ([0, 1] << [0, 3] at 3 bits was {{0}})",
+            construct="lshift: interval built from left-shifted bounds",
+        )
+    R.need(n2 >= 1, "lshift: no interval built from shifted bounds")
+    # (3) _rshift_arithmetic
+    fn = tree.func_inlined(SI, "StridedInterval._rshift_arithmetic", exclude=("_rshift_stride",))
+    derived = {}
+    for st in walk_no_nested(fn):
+        if isinstance(st, ast.Assign) and len(st.targets) == 1 and isinstance(st.targets[0], ast.Name) and isinstance(st.value, ast.BinOp) and isinstance(st.value.op, ast.RShift):
+            src = ast.unparse(st.value.left)
+            if src.endswith(("lower_bound", "upper_bound")):
+                derived[st.targets[0].id] = src
+    n3 = 0
+    for st in walk_no_nested(fn):
+        if not (isinstance(st, (ast.Assign, ast.AugAssign))):
+            continue
+        tgt = st.targets[0] if isinstance(st, ast.Assign) else st.target
+        if not (isinstance(tgt, ast.Name) and tgt.id in derived):
+            continue
+        val = st.value
+        is_fill = (isinstance(st, ast.AugAssign) and isinstance(st.op, ast.BitOr)) or (isinstance(val, ast.BinOp) and isinstance(val.op, ast.BitOr) and any(isinstance(x, ast.Name) and x.id == tgt.id for x in ast.walk(val)))
+        if not is_fill:
+            continue
+        n3 += 1
+        own = derived[tgt.id]
+        other = [v for k, v in derived.items() if v != own]
+        facts = _facts(st)
+        # a fact that tests this bound (and the decision does not hinge on the other bound alone)
+        ok = any(own in f for f in facts)
+        R.check(
+            ok,
+            m,
+            st,
+            f"sign fill of `{tgt.id}` under the sign test of {own}",
+            f"_rshift_arithmetic fills the vacated bits of `{tgt.id}` (from {own}) under {facts[-2:]}, none of which tests "
+            f"{own}{' (they test ' + other[0] + ')' if other and any(other[0] in f for f in facts) else ''}: a piece may run from the "
+            f"negative half past zero into the positive one, and each bound has its own sign ([4, 0] >>a 3 was {{7}})",
+            construct=f"_rshift_arithmetic: sign fill of the {'lower' if 'lower' in own else 'upper'} bound",
+        )
+    R.need(n3 >= 2, f"_rshift_arithmetic: only {n3} sign fills found")
